@@ -41,7 +41,7 @@ func (p *Prog) Func(pkg *ssa.Package, name string) *ssa.Function {
 func (p *Prog) ArgFuncs() []*ssa.Function {
 	var out []*ssa.Function
 	for _, f := range p.Funcs {
-		if Outer(f).Pkg == p.Arg {
+		if PkgOf(f) == p.Arg {
 			out = append(out, f)
 		}
 	}
@@ -52,7 +52,7 @@ func (p *Prog) ArgFuncs() []*ssa.Function {
 func (p *Prog) GraphFuncs() []*ssa.Function {
 	var out []*ssa.Function
 	for _, f := range p.Funcs {
-		if Outer(f).Pkg == p.Graph {
+		if PkgOf(f) == p.Graph {
 			out = append(out, f)
 		}
 	}
@@ -135,7 +135,7 @@ func one(role string, cands []*ssa.Function) (*ssa.Function, error) {
 // helperLike: an unexported, non-recursive named function that is only called statically, from exactly one
 // (outer) function. Returns that caller.
 func (p *Prog) helperLike(h *ssa.Function) (*ssa.Function, bool) {
-	if h == nil || h.Parent() != nil || !p.InTarget(h) || len(h.Blocks) == 0 || h.Synthetic != "" {
+	if h == nil || h.Parent() != nil || !p.InTarget(h) || len(h.Blocks) == 0 || (h.Synthetic != "" && !IsInstance(h)) {
 		return nil, false
 	}
 	if o := h.Object(); o == nil || o.Exported() {
@@ -351,10 +351,21 @@ func (p *Prog) resolveRole(role string) (*ssa.Function, error) {
 						}
 					}
 					sites := p.Callers(f)
-					if hasConvs || len(sites) != 1 || !p.InTarget(sites[0].Parent()) {
+					if hasConvs || len(sites) == 0 || !p.InTarget(sites[0].Parent()) {
 						break
 					}
-					f = Outer(sites[0].Parent())
+					// one driver, however many times it calls the step (`addInput` once per table)
+					drv := Outer(sites[0].Parent())
+					same := true
+					for _, s := range sites {
+						if Outer(s.Parent()) != drv {
+							same = false
+						}
+					}
+					if !same || drv == f {
+						break
+					}
+					f = drv
 				}
 				c = append(c, f)
 			}
